@@ -305,6 +305,11 @@ func ReturnValues(ret *ssa.Return, idx int) []ssa.Value {
 	v := ret.Results[idx]
 	if u, ok := v.(*ssa.UnOp); ok && u.Op == token.MUL {
 		if a, ok := u.X.(*ssa.Alloc); ok {
+			if CellWrittenByClosure(a) {
+				// a function literal that captured the cell stores to it: the stores in this
+				// function alone do not determine the value
+				return []ssa.Value{v}
+			}
 			stores := reachingStores(a, u)
 			if len(stores) > 0 {
 				var out []ssa.Value
@@ -1029,4 +1034,47 @@ func ReachingValues(v ssa.Value) []ssa.Value {
 		}
 	}
 	return []ssa.Value{v}
+}
+
+// CellWrittenByClosure: the local cell is captured by a function literal that stores to it
+// (directly or through a nested literal).
+func CellWrittenByClosure(a *ssa.Alloc) bool {
+	if a.Referrers() == nil {
+		return false
+	}
+	var written func(fv *ssa.FreeVar, depth int) bool
+	written = func(fv *ssa.FreeVar, depth int) bool {
+		if depth > 3 || fv.Referrers() == nil {
+			return false
+		}
+		for _, ref := range *fv.Referrers() {
+			switch x := ref.(type) {
+			case *ssa.Store:
+				if x.Addr == ssa.Value(fv) {
+					return true
+				}
+			case *ssa.MakeClosure:
+				lit, _ := x.Fn.(*ssa.Function)
+				for i, b := range x.Bindings {
+					if b == ssa.Value(fv) && lit != nil && i < len(lit.FreeVars) && written(lit.FreeVars[i], depth+1) {
+						return true
+					}
+				}
+			}
+		}
+		return false
+	}
+	for _, ref := range *a.Referrers() {
+		mc, ok := ref.(*ssa.MakeClosure)
+		if !ok {
+			continue
+		}
+		lit, _ := mc.Fn.(*ssa.Function)
+		for i, b := range mc.Bindings {
+			if b == ssa.Value(a) && lit != nil && i < len(lit.FreeVars) && written(lit.FreeVars[i], 0) {
+				return true
+			}
+		}
+	}
+	return false
 }
